@@ -75,6 +75,9 @@ fn main() {
                 eprintln!("simx: unknown property {}", prop);
                 exit(2)
             };
+            if let Some(o) = &out {
+                let _ = check::OUT_PATH.set(o.clone());
+            }
             let budget = budget.unwrap_or(if tier == "quick" { 40.0 } else { 1500.0 });
             let rep = run_families(&prop, &tier, fams, budget, &format!("{}/{}", replays, prop));
             let js = rep.to_json();
@@ -125,6 +128,16 @@ fn main() {
                 if Some(sc.label.as_str()) != js["label"].as_str() {
                     continue;
                 }
+                // Watchdog: a replayed hang must not hang the replay.
+                let hang_s: f64 = std::env::var("VX_HANG_S").ok().and_then(|s| s.parse().ok()).unwrap_or(20.0);
+                let file = args[2].clone();
+                let prop2 = prop.clone();
+                std::thread::spawn(move || {
+                    std::thread::sleep(std::time::Duration::from_secs_f64(hang_s));
+                    println!("[hang] a call did not return within {} s", hang_s);
+                    println!("VIOLATION property={} replay={}", prop2, file);
+                    exit(1);
+                });
                 let out = world::run_once(sc, &choices, true);
                 let an = oracle::analyze(sc, &out);
                 for e in &out.log {
